@@ -550,6 +550,29 @@ def c13_cases(rng, tier):
     # structural faults
     for s in [['}'], ['যদি মিথ্যা {'], ['অথবা {', '}'], ['ফাং ফ() {'], ['ফাং ফ()', 'দেখাও ১;'], ['লুপ {', '}'], ['ফেরত ১;'], ['ফাং', 'দেখাও ১;'], ['যদি মিথ্যা', 'দেখাও ১;']]:
         cases.append({'src': prog(['দেখাও "আগে";'] + s + ['দেখাও "পরে";']), 'kind': 'structural'})
+    # D27: several loop keywords sharing one closing continue left a stale loop entry; two of them let a function
+    # return with fewer scopes than it was called with (subtract with overflow)
+    cases.append({'src': prog(['নাম গ = ০;', 'ফাং টগল() { গ = গ + ১; ফেরত গ < ৩; } ফেরত;', 'ফাং চ() {', '  { লুপ লুপ লুপ { থামাও; } আবার; }', '  যদি টগল() থামাও; { }', '} ফেরত;',
+                               '{ চ(); দেখাও "পরে"; }', 'দেখাও "শেষ";']), 'kind': 'structural D27'})
+    cases.append({'src': prog(['দেখাও "আগে";', 'লুপ দেখাও ১; { থামাও; } আবার;', 'দেখাও "পরে";']), 'kind': 'structural D27'})
+    # structure soup: block, loop, chain, function and jump markers in arbitrary order, at top level and inside a
+    # function called from inside a block; every outcome but a panic or a hang is acceptable, and the model must agree
+    atoms = ['লুপ', '{', '}', '} আবার;', 'আবার;', 'থামাও;', 'যদি ট()', 'যদি সত্য', 'যদি মিথ্যা', 'অথবা', '} অথবা {', 'ফেরত;', 'ফেরত ১;', 'দেখাও ১;', 'চ();', 'ফাং ছ()', '} ফেরত;', 'ছ();', 'নাম স = ১;']
+    n = 3000 if tier == 'thorough' else 400
+    for _ in range(n):
+        k = rng.randint(2, 14)
+        soup = [rng.choice(atoms) for _ in range(k)]
+        if rng.random() < 0.6:
+            # bias towards balanced braces: wrap a random slice in a block or a loop
+            i = rng.randint(0, len(soup)); j = rng.randint(i, len(soup))
+            wrap = rng.choice([('{', '}'), ('লুপ {', '} আবার;'), ('যদি ট() {', '}'), ('লুপ লুপ {', '} আবার;')])
+            soup = soup[:i] + [wrap[0]] + soup[i:j] + [wrap[1]] + soup[j:]
+        head = ['নাম গ = ০;', 'ফাং ট() { গ = গ + ১; ফেরত গ % ৩ != ০; } ফেরত;']
+        if rng.random() < 0.5:
+            src = head + ['ফাং চ() {'] + soup + ['} ফেরত;', '{ চ(); দেখাও "পরে"; }', 'দেখাও "শেষ";']
+        else:
+            src = head + ['ফাং চ() { দেখাও "চ"; } ফেরত;'] + soup + ['দেখাও "শেষ";']
+        cases.append({'src': prog(src), 'kind': 'structure-soup'})
     return cases
 
 
@@ -732,6 +755,20 @@ def c19_cases(rng, tier):
          '    নাম বড় = [' + ', '.join(['আজ'] * 99) + '];', '} আবার;'],
         ['যদি সত্য {', '    যদি সত্য {', '        যদি মিথ্যা {', '        } অথবা {', '        }', '    }', '}'],
     ]
+    # fixed part: every residue-leaving fragment before every residue-sensitive fragment
+    p2_fixed = [
+        ['দেখাও "দ্বি";', 'থামাও;'],
+        ['দেখাও "দ্বি";', 'আবার;'],
+        ['নাম দ্বিক = ২;', 'যদি দ্বিক == ২ {', '    দেখাও "এক";', '} অথবা যদি দ্বিক == ৩ {', '    দেখাও "দুই";', '} অথবা {', '    দেখাও "তিন";', '}', 'যদি দ্বিক == ৫ {', '    দেখাও "চার";', '} অথবা {', '    দেখাও "পাঁচ";', '}'],
+        ['নাম দ্বিই = ০;', 'লুপ {', '    দ্বিই = দ্বিই + ১;', '    যদি দ্বিই > ৩ {', '        থামাও;', '    }', '    নাম দ্বিজ = ০;', '    লুপ {', '        দ্বিজ = দ্বিজ + ১;', '        যদি দ্বিজ == ২ {', '            আবার;', '        }',
+         '        যদি দ্বিজ > ৩ {', '            থামাও;', '        }', '        দেখাও দ্বিই * ১০ + দ্বিজ;', '    } আবার;', '} আবার;', 'দেখাও দ্বিই;'],
+        ['ফাং দ্বিফ(ক) {', '    নাম ই = ০;', '    লুপ {', '        ই = ই + ১;', '        যদি ই > ক {', '            ফেরত ই;', '        }', '    } আবার;', '} ফেরত;', 'নাম দ্বিন = ০;', 'লুপ {', '    দ্বিন = দ্বিন + ১;', '    যদি দ্বিন > ২ {', '        থামাও;', '    }', '    দেখাও দ্বিফ(দ্বিন);', '} আবার;', 'থামাও;'],
+        ['নাম দ্বিম = [];', 'নাম দ্বিই = ০;', 'লুপ {', '    যদি দ্বিই >= ৬০ {', '        থামাও;', '    }', '    _লিস্ট-পুশ(দ্বিম, [দ্বিই]);', '    দ্বিই = দ্বিই + ১;', '} আবার;', 'নাম দ্বিভুল = ০;', 'দ্বিই = ০;', 'লুপ {', '    যদি দ্বিই >= ৬০ {', '        থামাও;', '    }',
+         '    যদি দ্বিম[দ্বিই][০] != দ্বিই {', '        দ্বিভুল = দ্বিভুল + ১;', '    }', '    দ্বিই = দ্বিই + ১;', '} আবার;', 'দেখাও দ্বিভুল;', 'নাম দ্বির = @{"ক" -> ১,};', 'নাম দ্বির২ = @{"খ" -> ২,};', 'নাম দ্বির৩ = @{"গ" -> ৩,};', 'দেখাও দ্বির["ক"];', 'দেখাও দ্বির২["খ"];', 'দেখাও দ্বির৩["গ"];'],
+    ]
+    for a in p1_pool:
+        for b in p2_fixed:
+            cases.append({'p1': prog(a), 'p2': prog(b), 'kind': 'compose'})
     for _ in range(n):
         p1 = []
         for _ in range(rng.randint(1, 3)): p1 += rng.choice(p1_pool)
